@@ -207,7 +207,7 @@ impl Constraints {
                 if segment < (2.0 * PI - from) {
                     from + segment // Within the forward wrap
                 } else {
-                    to + (segment - (2.0 * PI - from)) // After the wrap
+                    segment - (2.0 * PI - from) // After the wrap
                 }
             };
             random_angle
